@@ -521,8 +521,11 @@ def _scenario_step(st: State, n, r):
         a = ua[-1] if r[1] % 2 else ua[r[1] % len(ua)]
         b = ub[r[2] % len(ub)]
         mid = [['rej', 'valid'], ['valid', 'rej'],
-               ['rej', 'valid', 'rej']][r[3] % 3]
-        plan = (['op'] if r[4] % 2 else []) + mid + ['op']
+               ['rej', 'valid', 'rej'],
+               # ... with several hundred other operations in between
+               # (bounded memos are full by then)
+               ['valid', 'burst', 'rej']][r[3] % 4]
+        plan = (['op'] if r[4] % 2 or 'burst' in mid else []) + mid + ['op']
         sc = st.scn = {'D': tn, 'a': a, 'b': b, 'e': eb, 'plan': plan,
                        'i': 0}
     what = sc['plan'][sc['i']]
@@ -533,6 +536,8 @@ def _scenario_step(st: State, n, r):
     if what == 'op':
         return {'a': 'operate', 's1': a, 's2': b,
                 'op': '*' if e == 1 else '/', 'expect': 'accept'}
+    if what == 'burst':
+        return {'a': 'burst', 'expect': 'accept'}
     items = [[a, 1], [b, e]]
     if what == 'valid':
         form = r[5] % 3
@@ -685,6 +690,20 @@ def perform(env: Env16, act):
                 None if unit is None else type_key(env, unit.qty_cls)]}
         except Exception as e:      # noqa
             return 'exc', type(e).__name__
+    if a == 'burst':
+        us = list(env.units.values())
+        done = 0
+        for x in us[:90]:
+            for y in us[:90]:
+                if x.qty_cls is not y.qty_cls and done > 40:
+                    continue        # quotients within a type always exist
+                for fn in (lambda: x / y, lambda: x * y):
+                    try:
+                        fn()
+                        done += 1
+                    except Exception:       # noqa
+                        pass
+        return 'ok', {'done': done}
     if a == 'money_subtype':
         from quantity.money import Money
         try:
